@@ -23,7 +23,7 @@ def cases(seed, tier):
     rng = rng_for(seed, 'C03')
     out = []
     mspecs = uni.model_specs(rng, tier)
-    reps = 5 if tier == 'quick' else 60
+    reps = 5 if tier == 'quick' else 700
     for ms in mspecs:
         kinds = list(uni.DATA_KINDS)
         for r in range(reps):
@@ -42,7 +42,7 @@ def cases(seed, tier):
                 continue
             out.append({'model': ms, 'data': {'kind': kind, 'n': 300, 'seed': int(rng.integers(1 << 31))}})
     for ms in mspecs:
-        for c in ([3.0, -2.5] if tier == 'quick' else [3.0, 0.0, -2.5, 1e6, 1e-6, 7.0]):
+        for c in ([3.0, -2.5, 0.0] if tier == 'quick' else [3.0, 0.0, -2.5, 1e6, 1e-6, 7.0, -1e-9, 1e12]):
             out.append({'model': ms, 'constant': c, 'n': int(rng.choice([1, 5, 40]))})
     return out
 
